@@ -1,6 +1,8 @@
 import CstModel.Props.C03
 import CstModel.Proofs.WalkN
 import CstModel.Proofs.Walk
+import CstModel.Proofs.TokenSpec
+import CstModel.Proofs.BackN
 open Cst.C03
 #print axioms parent_child
 #print axioms ancestorsOf_spec
@@ -21,3 +23,12 @@ open Cst.C03
 #print axioms Cst.walkNextN_sim
 #print axioms Cst.walk_preN
 #print axioms Cst.preorder_nodes_spec
+#print axioms Cst.firstToken_spec
+#print axioms Cst.lastToken_spec
+#print axioms Cst.nextToken_spec
+#print axioms Cst.prevToken_spec
+#print axioms Cst.leaves_split
+#print axioms Cst.lastChild_path
+#print axioms Cst.prevSibling_path
+#print axioms Cst.lastChild_spec
+#print axioms Cst.prevSibling_spec
